@@ -430,11 +430,15 @@ def main():
     ctx = Ctx(pid, tier)
     try:
         return fn(ctx)
-    except Infra as e:
-        print("INFRA: %s" % e, flush=True)
-        return 2
     except subprocess.TimeoutExpired as e:
         print("INFRA: timeout %s" % e, flush=True)
+        return 2
+    except Exception as e:      # noqa: BLE001 -- anything that is not a verdict is an infrastructure problem (exit 2), never exit 1
+        # (families imports this file as module `vcheck`, so its Infra is a different class object from __main__.Infra)
+        if type(e).__name__ != "Infra":
+            import traceback
+            traceback.print_exc()
+        print("INFRA: %s" % e, flush=True)
         return 2
     finally:
         if not os.environ.get("VERIF_KEEP"):
